@@ -134,8 +134,12 @@ def run_family(spec, tier, seed, workdir, extra=None, keep_name=None):
             out.write("\ncrash exit=%d %s\n" % (p.returncode, first.replace("\n", " ")))
     r = subprocess.run([DRV, tpath], stdout=subprocess.PIPE, stderr=subprocess.STDOUT, text=True)
     fr.wall = time.time() - t0
+    only = re.compile(spec["only"]) if spec.get("only") else None
     for line in r.stdout.splitlines():
         if line.startswith("DIFF "):
+            if only is not None and not only.search(line):
+                fr.mstats["diffs.other-property"] = fr.mstats.get("diffs.other-property", 0) + 1
+                continue
             fr.diffs.append(line[5:])
         elif line.startswith("checked "):
             fr.checked = int(line.split()[1])
@@ -174,6 +178,14 @@ def run_family(spec, tier, seed, workdir, extra=None, keep_name=None):
             elif cur is not None and len(cur) < 14:
                 cur.append(line.strip()[:160])
     return fr
+
+
+CONFIG_ARGS = ("ct", "forcepol")
+
+
+def norm_diff(d):
+    # the same disagreement in two runs of one workload: same case, kind and detail (transcript line numbers differ)
+    return re.sub(r"\bline=\d+\s*", "", d).strip()
 
 
 def case_of(diff):
@@ -325,6 +337,23 @@ def main(argv):
                         known_lines.append(line)
                 else:
                     new_diffs.append(d)
+            # A family of ANOTHER property re-run under a non-default configuration (--ct / --forcepol) tests
+            # that the configuration is transparent: a disagreement that the same workload also shows under the
+            # default configuration is that other property's business, not this one's.
+            cfgkeys = [k for k in (fr.spec.get("args") or {}) if k in CONFIG_ARGS]
+            if new_diffs and cfgkeys:
+                base = dict(fr.spec); base["args"] = {k: v for k, v in fr.spec["args"].items() if k not in CONFIG_ARGS}
+                try:
+                    br = run_family(base, tier, seed, workdir, keep_name=fr.family + ".defaultcfg")
+                    bset = {norm_diff(d) for d in br.diffs}
+                    kept = [d for d in new_diffs if norm_diff(d) not in bset]
+                    if len(kept) != len(new_diffs):
+                        obligations.append(("config-differential:%s" % fr.family, True,
+                                            "%d disagreement(s) also occur under the default configuration (not attributable to %s): %s"
+                                            % (len(new_diffs) - len(kept), "/".join(cfgkeys), "; ".join(d for d in new_diffs if d not in kept)[:300])))
+                    new_diffs = kept
+                except Exception as e:  # noqa
+                    pass
             obligations.append(("correspondence:%s" % fr.family, not new_diffs,
                                 "; ".join(new_diffs[:3])[:600]))
             if not new_diffs:
